@@ -227,14 +227,15 @@ theorem IsDensity.photnu : IsDensity (.photnu : FluxUnit K) := ⟨nofun, nofun, 
 theorem IsDensity.jy (s : K) : IsDensity (.jy s : FluxUnit K) := ⟨nofun, nofun, nofun⟩
 
 /-- what `effstim` does with the PHOTLAM samples `obs` of the observation and the samples `band` of the
-bandpass, for a density unit -/
-def effstimOf (E : Env K) (thr : K) (bm : Tree K) (u : FluxUnit K) (obs band : List (K × K)) : Except Err K :=
+bandpass, for a density unit (`wl`: the caller's wavelengths, on which the pivot is taken too) -/
+def effstimOf (E : Env K) (thr : K) (bm : Tree K) (wl : Option (List K)) (u : FluxUnit K)
+    (obs band : List (K × K)) : Except Err K :=
   if |trapz (timesLam (toFlam E.P obs))| ≤ 0 then .error .synphotError
   else if |trapz (timesLam band)| ≤ 0 then .error .synphotError
   else match u with
     | .flam => .ok (effstimFlam (toFlam E.P obs) band)
     | .stmag => toMag E.T (effstimFlam (toFlam E.P obs) band / E.P.stZero)
-    | u' => pivot E thr bm none >>= fun wp =>
+    | u' => pivot E thr bm wl >>= fun wp =>
         convertOne E.P E.T (plainSamp wp) .flam u' (effstimFlam (toFlam E.P obs) band)
 
 theorem num_eq (P : PhysConst K) (inw inp : List K) :
@@ -255,7 +256,7 @@ theorem effstim_pipeline (E : Env K) (thr atol rtol : K) (o : Obs K) (u : FluxUn
     effstim E thr atol rtol o u wl area vega =
       (o.band.model >>= fun bm => wavelengthsOr thr bm wl >>= fun xb => sampleTree E bm xb >>= fun yb =>
         wavelengthsOr thr o.model wl >>= fun inw => sampleTree E o.model inw >>= fun inp =>
-          effstimOf E thr bm u (inw.zip inp) (xb.zip yb)) := by
+          effstimOf E thr bm wl u (inw.zip inp) (xb.zip yb)) := by
   obtain ⟨h1, h2, h3⟩ := hu
   cases u <;> first | exact absurd rfl h1 | exact absurd rfl h2 | exact absurd rfl h3 | skip
   all_goals
@@ -276,16 +277,16 @@ theorem effstim_pipeline (E : Env K) (thr atol rtol : K) (o : Obs K) (u : FluxUn
     simp only [validateTotalflux, effstimOf, effstimFlam]
     split_ifs <;> rfl
 
-/-- `pivot()` on the native sampling set is `pivotOf` of the bandpass samples -/
-theorem pivot_eq (E : Env K) (thr : K) (bm : Tree K) (xb yb : List K)
-    (hxb : wavesetOrErr thr bm = .ok xb) (hyb : sampleTree E bm xb = .ok yb) :
-    pivot E thr bm none = .ok (pivotOf E.T (xb.zip yb)) := by
+/-- `pivot(wavelengths)` is `pivotOf` of the bandpass samples on the wavelengths used -/
+theorem pivot_eq (E : Env K) (thr : K) (bm : Tree K) (wl : Option (List K)) (xb yb : List K)
+    (hxb : wavelengthsOr thr bm wl = .ok xb) (hyb : sampleTree E bm xb = .ok yb) :
+    pivot E thr bm wl = .ok (pivotOf E.T (xb.zip yb)) := by
   have h1 : trapzXY xb ((xb.zip yb).map fun x => x.2 * x.1) = trapz (timesLam (xb.zip yb)) := by
     rw [trapzXY_zip]; unfold timesLam; congr 1
     apply List.map_congr_left; intro p _; rw [mul_comm]
   have h2 : trapzXY xb ((xb.zip yb).map fun x => x.2 / x.1) = trapz (overLam (xb.zip yb)) := by
     rw [trapzXY_zip]; rfl
-  simp only [pivot, wavelengthsOr, hxb, hyb, bind, Except.bind, pure, Except.pure]
+  simp only [pivot, hxb, hyb, bind, Except.bind, pure, Except.pure]
   rw [h1, h2]
   unfold pivotOf
   split_ifs <;> rfl
@@ -394,20 +395,20 @@ theorem convertOne_flam_linear (P : PhysConst K) (T : Transc K) (u : FluxUnit K)
     congr 1; ring
 
 /-- the branch of `effstimOf` that converts at the pivot wavelength -/
-theorem effstimOf_pivot_branch (E : Env K) (thr : K) (bm : Tree K) (u : FluxUnit K)
+theorem effstimOf_pivot_branch (E : Env K) (thr : K) (bm : Tree K) (wl : Option (List K)) (u : FluxUnit K)
     (hu : u = .fnu ∨ u = .photlam ∨ u = .photnu ∨ u = .abmag ∨ ∃ s, u = .jy s) (obs band : List (K × K)) :
-    effstimOf E thr bm u obs band =
+    effstimOf E thr bm wl u obs band =
       if |trapz (timesLam (toFlam E.P obs))| ≤ 0 then .error .synphotError
       else if |trapz (timesLam band)| ≤ 0 then .error .synphotError
-      else pivot E thr bm none >>= fun wp =>
+      else pivot E thr bm wl >>= fun wp =>
         convertOne E.P E.T (plainSamp wp) .flam u (effstimFlam (toFlam E.P obs) band) := by
   rcases hu with rfl | rfl | rfl | rfl | ⟨s, rfl⟩ <;> rfl
 
 /-- `effstimOf` in a linear density unit is homogeneous in the observation's samples, errors included -/
-theorem effstimOf_scale_linear (E : Env K) (thr : K) (bm : Tree K) (u : FluxUnit K)
+theorem effstimOf_scale_linear (E : Env K) (thr : K) (bm : Tree K) (wl : Option (List K)) (u : FluxUnit K)
     (hu : u = .flam ∨ u = .fnu ∨ u = .photlam ∨ u = .photnu ∨ ∃ s, u = .jy s)
     (obs band : List (K × K)) (k : K) (hk : 0 < k) :
-    effstimOf E thr bm u (scaleY k obs) band = (effstimOf E thr bm u obs band).map (k * ·) := by
+    effstimOf E thr bm wl u (scaleY k obs) band = (effstimOf E thr bm wl u obs band).map (k * ·) := by
   have hnum : |trapz (timesLam (toFlam E.P (scaleY k obs)))| = k * |trapz (timesLam (toFlam E.P obs))| := by
     rw [toFlam_scaleY, timesLam_scaleY, trapz_scaleY, abs_mul, abs_of_pos hk]
   have hiff : (|trapz (timesLam (toFlam E.P (scaleY k obs)))| ≤ 0) ↔ (|trapz (timesLam (toFlam E.P obs))| ≤ 0) := by
@@ -429,7 +430,7 @@ theorem effstimOf_scale_linear (E : Env K) (thr : K) (bm : Tree K) (u : FluxUnit
       · exact Or.inr (Or.inl h)
       · exact Or.inr (Or.inr (Or.inl h))
       · exact Or.inr (Or.inr (Or.inr (Or.inr h)))
-    rw [effstimOf_pivot_branch E thr bm u hu', effstimOf_pivot_branch E thr bm u hu']
+    rw [effstimOf_pivot_branch E thr bm wl u hu', effstimOf_pivot_branch E thr bm wl u hu']
     by_cases h1 : |trapz (timesLam (toFlam E.P obs))| ≤ 0
     · rw [if_pos h1, if_pos (hiff.mpr h1)]; rfl
     · rw [if_neg h1, if_neg (fun h => h1 (hiff.mp h))]
@@ -437,15 +438,16 @@ theorem effstimOf_scale_linear (E : Env K) (thr : K) (bm : Tree K) (u : FluxUnit
       · rw [if_pos h2, if_pos h2]; rfl
       · rw [if_neg h2, if_neg h2, toFlam_scaleY, effstimFlam_scaleY _ _ _ hk]
         simp only [bind, Except.bind]
-        cases pivot E thr bm none with
+        cases pivot E thr bm wl with
         | error e => rfl
         | ok wp => exact convertOne_flam_linear E.P E.T u hu wp _ k
 
 /-- … and in STmag / ABmag it is shifted by `−2.5 log₁₀ k`, errors included -/
-theorem effstimOf_scale_mag (E : Env K) (hT : E.T.Lawful) (thr : K) (bm : Tree K) (u : FluxUnit K)
+theorem effstimOf_scale_mag (E : Env K) (hT : E.T.Lawful) (thr : K) (bm : Tree K) (wl : Option (List K))
+    (u : FluxUnit K)
     (hu : u = .stmag ∨ u = .abmag) (obs band : List (K × K)) (k : K) (hk : 0 < k) :
-    effstimOf E thr bm u (scaleY k obs) band =
-      (effstimOf E thr bm u obs band).map (· - (5/2) * E.T.log10 k) := by
+    effstimOf E thr bm wl u (scaleY k obs) band =
+      (effstimOf E thr bm wl u obs band).map (· - (5/2) * E.T.log10 k) := by
   have hnum : |trapz (timesLam (toFlam E.P (scaleY k obs)))| = k * |trapz (timesLam (toFlam E.P obs))| := by
     rw [toFlam_scaleY, timesLam_scaleY, trapz_scaleY, abs_mul, abs_of_pos hk]
   have hiff : (|trapz (timesLam (toFlam E.P (scaleY k obs)))| ≤ 0) ↔ (|trapz (timesLam (toFlam E.P obs))| ≤ 0) := by
@@ -464,7 +466,7 @@ theorem effstimOf_scale_mag (E : Env K) (hT : E.T.Lawful) (thr : K) (bm : Tree K
       · simp only []
         rw [mul_div_assoc, toMag_scale hT _ _ hk]
       · simp only [bind, Except.bind]
-        cases pivot E thr bm none with
+        cases pivot E thr bm wl with
         | error e => rfl
         | ok wp =>
           have hne : (FluxUnit.flam : FluxUnit K) ≠ .abmag := by intro h; cases h
@@ -701,20 +703,41 @@ theorem sampleset_constFlux_mul (thr v : K) (u : FluxUnit K) (bm : Tree K) :
 theorem sampleset_scaled_source (thr k : K) (sm bm : Tree K) :
     (Tree.bin .mul (.scale sm k) bm).sampleset thr = (Tree.bin .mul sm bm).sampleset thr := rfl
 
-/-- the effective stimulus of `ConstFlux1D(v, u) × bandpass`, reduced to `effstimOf` on the bandpass samples -/
+theorem wavelengthsOr_pos {thr : K} {m : Tree K} {wl : Option (List K)} {w : List K}
+    (h : wavelengthsOr thr m wl = .ok w) : ∀ x ∈ w, 0 < x := by
+  cases wl with
+  | none => exact wavesetOrErr_pos h
+  | some w' =>
+    simp only [wavelengthsOr, bind, Except.bind, pure, Except.pure] at h
+    cases hv : validateWavelengths w' with
+    | error e => rw [hv] at h; cases h
+    | ok u =>
+      rw [hv] at h
+      injection h with h; subst h
+      cases u
+      exact ((validate_ok_iff w').mp hv).1
+
+theorem wavelengthsOr_congr {thr : K} {m m' : Tree K} (wl : Option (List K))
+    (h : m'.sampleset thr = m.sampleset thr) : wavelengthsOr thr m' wl = wavelengthsOr thr m wl := by
+  cases wl with
+  | none => exact wavesetOrErr_congr h
+  | some w => rfl
+
+/-- the effective stimulus of `ConstFlux1D(v, u) × bandpass`, reduced to `effstimOf` on the bandpass samples
+(on the bandpass's own sampling set, or on the caller's wavelengths) -/
 theorem effstim_flat_reduce (E : Env K) (thr atol rtol : K) (o : Obs K) (u : FluxUnit K) (hu : IsDensity u)
-    (v : K) (bm : Tree K) (xb yb : List K) (g : K → K)
+    (wl : Option (List K)) (v : K) (bm : Tree K) (xb yb : List K) (g : K → K)
     (hmodel : o.model = .bin .mul (.leaf (.constFlux v u)) bm) (hbm : o.band.model = .ok bm)
-    (hxb : wavesetOrErr thr bm = .ok xb) (hyb : sampleTree E bm xb = .ok yb)
+    (hxb : wavelengthsOr thr bm wl = .ok xb) (hyb : sampleTree E bm xb = .ok yb)
     (hg : ∀ x ∈ xb, toPhotlam E.P E.T (plainSamp x) u v = .ok (g x)) :
-    effstim E thr atol rtol o u none none none =
-      effstimOf E thr bm u ((xb.zip yb).map fun p => (p.1, g p.1 * p.2)) (xb.zip yb) := by
-  have hw : wavesetOrErr thr o.model = .ok xb := by
-    rw [hmodel, wavesetOrErr_congr (sampleset_constFlux_mul thr v u bm), hxb]
+    effstim E thr atol rtol o u wl none none =
+      effstimOf E thr bm wl u ((xb.zip yb).map fun p => (p.1, g p.1 * p.2)) (xb.zip yb) := by
+  have hw : wavelengthsOr thr o.model wl = .ok xb := by
+    rw [hmodel, wavelengthsOr_congr wl (sampleset_constFlux_mul thr v u bm), hxb]
   have hs : sampleTree E o.model xb = .ok ((xb.zip yb).map fun p => g p.1 * p.2) := by
     rw [hmodel]; exact sampleTree_constFlux_mul E v u bm g xb yb hg hyb
   rw [effstim_pipeline E thr atol rtol o u hu]
-  simp only [hbm, wavelengthsOr, hxb, hyb, hw, hs, bind, Except.bind]
+  simp only [hbm, hxb, hyb, hw, hs, bind, Except.bind]
   rw [zip_map_zip]
 
 /-! ### a concrete observation for the non-vacuity examples -/
@@ -745,6 +768,30 @@ theorem band_waveset (thr : K) : wavesetOrErr thr (band : Tree K) = .ok [2, 4] :
     · exact ⟨by norm_num, trivial⟩
   simp only [wavesetOrErr, Tree.waveset, Tree.sampleset, band, Leaf.sampleset, hv, bind, Except.bind, pure,
     Except.pure]
+
+theorem band_grid (thr : K) : wavelengthsOr thr (band : Tree K) none = .ok [2, 4] := band_waveset thr
+
+/-- an explicit, descending sampling of the same bandpass -/
+theorem band_grid_desc (thr : K) : wavelengthsOr thr (band : Tree K) (some [4, 2]) = .ok [4, 2] := by
+  have hv : validateWavelengths ([4, 2] : List K) = .ok () := by
+    rw [validate_ok_iff]
+    refine ⟨?_, Or.inr ?_⟩
+    · intro x hx; simp only [List.mem_cons, List.not_mem_nil, or_false] at hx
+      rcases hx with rfl | rfl <;> norm_num
+    · exact ⟨by norm_num, trivial⟩
+  simp only [wavelengthsOr, hv, bind, Except.bind, pure, Except.pure]
+
+theorem band_samples_desc (E : Env K) : sampleTree E band [4, 2] = .ok [1, 1] := by
+  have h2 : (3 : K) - 4 / 2 ≤ 2 ∧ (2 : K) ≤ 3 + 4 / 2 := by constructor <;> norm_num
+  have h4 : (3 : K) - 4 / 2 ≤ 4 ∧ (4 : K) ≤ 3 + 4 / 2 := by constructor <;> norm_num
+  simp only [sampleTree_cons, sampleTree_nil, band, Tree.eval, Leaf.eval, if_pos h2, if_pos h4, bind, Except.bind,
+    pure, Except.pure]
+
+theorem band_B_desc : trapz (timesLam (([4, 2] : List K).zip [1, 1])) = -6 := by
+  simp only [List.zip_cons_cons, List.zip_nil_right, timesLam, List.map_cons, List.map_nil, trapz]; norm_num
+
+theorem band_A_desc : trapz (overLam (([4, 2] : List K).zip [1, 1])) = -(3 / 4) := by
+  simp only [List.zip_cons_cons, List.zip_nil_right, overLam, List.map_cons, List.map_nil, trapz]; norm_num
 
 theorem band_samples (E : Env K) : sampleTree E band [2, 4] = .ok [1, 1] := by
   have h2 : (3 : K) - 4 / 2 ≤ 2 ∧ (2 : K) ≤ 3 + 4 / 2 := by constructor <;> norm_num
